@@ -725,7 +725,7 @@ class StdSymbolRecord(StructFormatter):
             elif (
                 self.StorageClass == 2
                 and self.SectionNumber == IMAGE_SYM_UNDEF
-                and Self.Value == 0
+                and self.Value == 0
             ):
                 auxclass = AuxWeakExternal
             elif self.StorageClass == 103:
